@@ -5,7 +5,7 @@ SPEC = {
     "props": "theories/Combine/Props_C04.v",
     "harness": [{"bin": "h_combine", "n": {"quick": 400, "thorough": 3000}, "args": ["--stream", "c04"],
                  "known_bits": {}}],
-    "rule": "segment sets beaconed from 36 fixed small topologies (incl. AS numbers reused across ISDs, routes ordered differently by segment and link count; all AS / link / peering-link MTUs pairwise distinct with a random unique bottleneck) (core mesh, parent/child chains, diamonds, parallel links, two ISDs, peering between siblings / across cores / across ISDs) and the repository's 20-AS default graph; all ordered src/dst pairs incl. core and on-segment ASes; each also with shuffled input lists, duplicated segments, all non-core segments passed, a random subset of the segments, 2-4 peer entries per AS entry with dangling / zero / duplicate ones around the usable one, and refreshed (same hops, later timestamp) segments; a case is non-trivial when it returns at least one path; distinct by full case text",
+    "rule": "segment sets beaconed from 36 fixed small topologies (incl. AS numbers reused across ISDs, routes ordered differently by segment and link count; all AS / link / peering-link MTUs pairwise distinct with a random unique bottleneck) (core mesh, parent/child chains, diamonds, parallel links, two ISDs, peering between siblings / across cores / across ISDs) and the repository's 20-AS default graph; all ordered src/dst pairs incl. core and on-segment ASes; each also with shuffled input lists, duplicated segments, all non-core segments passed, a random subset of the segments, 2-4 peer entries per AS entry with dangling / zero / duplicate ones around the usable one, refreshed (same hops, later timestamp) segments and 3-6 instances of a segment with pairwise different timestamps / hop ExpTime (8 calls each); a case is non-trivial when it returns at least one path; distinct by full case text",
     "assumptions": ["slice::sort_by is a stable sort (modelled as insertion sort)",
                     "SegmentID order is taken from the implementation's SHA-256; fingerprints are compared structurally",
                     "hop-field ExpTime values are bytes (Rust type u8) in expiry_is_min"],
